@@ -47,6 +47,9 @@ pub struct GraphCase {
     /// 0 = two-pass entry point, 1 = check_set_predicates twice over a shared cache,
     /// 2 = check_and_compute_solution_set twice over a shared cache.
     pub mode: u8,
+    /// Hostile cases only (C06): program pool entries replaced by arbitrary bytes (possibly unparsable).
+    #[serde(default)]
+    pub raw_programs: Vec<(usize, Vec<u8>)>,
 }
 
 /// Edge slice of every node by the documented rule of `Predicate::node_edges`.
